@@ -225,6 +225,8 @@ fn make_case_slow(progs: &[Vec<A>], spawn: SpawnCfg, attach: Attach, start_err: 
         role.started_actions.push(Action::Interval { timer: 1, period: 1 });
     }
     role.started_sleep = slow_start;
+    // (the same for stopped(): whatever the handler timeout is, the hook runs to its end)
+    role.stopped_sleep = slow_start;
     let stream = attach != Attach::None;
     let desc = format!(
         "lifecycle {:?} strat={:?} mailbox={} timeout={:?} slow_start={slow_start} attach={:?} start_err={:?} tick={} progs={}",
@@ -239,7 +241,7 @@ fn make_case_slow(progs: &[Vec<A>], spawn: SpawnCfg, attach: Attach, start_err: 
     );
     Case {
         desc,
-        exec: ExecCfg { horizon: 3 + slow_start as u64 * 3, ..ExecCfg::default() },
+        exec: ExecCfg { horizon: 3 + slow_start as u64 * 8, ..ExecCfg::default() },
         bound: None,
         scene: Box::new(ProgScene { variant: crate::progscene::current_variant(), spawn, attach, roles: vec![role], clients, extra: X { stream, start_err }, oracle }),
     }
